@@ -129,7 +129,9 @@ def api_doc(rng, strings):
                 pkg.rels.append((rid, name, B.REL + "image"))
                 blip = X("a:blip", {"r:embed": rid})
                 pic = X("a:graphic", {}, [X("a:graphicData", {}, [X("pic:pic", {}, [X("pic:blipFill", {}, [blip])])])])
-                kids.append(X("w:r", {}, [X("w:drawing", {}, [X("wp:inline", {}, [X("wp:docPr", {"descr": S()}), pic])])]))
+                # (some pictures have no description: they must come out without an alt attribute)
+                docpr = [X("wp:docPr", {"descr": S()})] if rng.random() < 0.6 else []
+                kids.append(X("w:r", {}, [X("w:drawing", {}, [X("wp:inline", {}, docpr + [pic])])]))
             elif k < 0.7:
                 if pkg.footnotes is None:
                     pkg.footnotes = []
@@ -186,8 +188,10 @@ def api_stream(ctx, dist):
                 prefix = "QxPxQ"
             data, _ = B.build(pkg)
 
-            def conv(image, cattrs=cattrs):
-                return {"src": cattrs[0], "title": cattrs[1]}
+            shared_attrs = {"src": cattrs[0], "title": cattrs[1]}
+
+            def conv(image, shared_attrs=shared_attrs):
+                return shared_attrs          # the converter hands back the SAME dict for every picture: it is the caller's, not mammoth's
             try:
                 res = mammoth.convert_to_html(io.BytesIO(data), style_map=sm, id_prefix=prefix, convert_image=mammoth.images.img_element(conv))
                 outs.append((prefix, res.value, None))
@@ -206,7 +210,27 @@ def api_stream(ctx, dist):
             try:
                 fh, ft = O.strict_parse(hv), O.strict_parse(tv)
                 vh, vt = [], []
-                if skeleton_and_values(fh, vh) != skeleton_and_values(ft, vt):
+                imgs_h = []
+
+                def find_imgs(forest):
+                    for nd in forest:
+                        if "name" in nd:
+                            if nd["name"] == "img":
+                                imgs_h.append(nd)
+                            find_imgs(nd["children"])
+                find_imgs(fh)
+                described = []
+
+                def find_drawings(nodes):
+                    for x_ in nodes:
+                        if hasattr(x_, "children"):
+                            if x_.name == "wp:inline":
+                                described.append(any(c.name == "wp:docPr" for c in x_.children))
+                            find_drawings(x_.children)
+                find_drawings(pkg.body)
+                if [("alt" in nd["attrs"]) for nd in imgs_h] != described:
+                    bad = "alt attributes do not follow the pictures' own descriptions: %s vs described %s" % ([nd["attrs"].get("alt") for nd in imgs_h], described)
+                elif skeleton_and_values(fh, vh) != skeleton_and_values(ft, vt):
                     bad = "substituting harmless strings for the document's strings changed tags, attribute names or nesting"
                 else:
                     def unsub(x):
